@@ -230,10 +230,21 @@ def run_pool(mod, prop_id, tier, seed, shards, jobs):
 # known findings
 # ---------------------------------------------------------------------------
 def load_known(prop_id):
-    if not KNOWN.exists():
-        return []
-    data = json.loads(KNOWN.read_text())
-    return [f for f in data.get("findings", []) if f.get("property") == prop_id]
+    out = []
+    if KNOWN.exists():
+        data = json.loads(KNOWN.read_text())
+        out += [f for f in data.get("findings", []) if f.get("property") == prop_id]
+    # per-property proposal files (development convenience; merged into known_findings.json
+    # by tools/merge_findings.py before committing)
+    d = VERIF / "findings.d"
+    if d.is_dir():
+        for p in sorted(d.glob("*.json")):
+            try:
+                data = json.loads(p.read_text())
+            except ValueError:
+                continue
+            out += [f for f in data.get("findings", []) if f.get("property") == prop_id]
+    return out
 
 
 def match_known(known, sig):
